@@ -98,10 +98,10 @@ type Type3Opts struct {
 	ClientChallenge                     []byte // 8 bytes, nil = fixed
 	Timestamp                           []byte // 8 bytes, nil = fixed
 	// mutations
-	FlipProofBit int  // >=0: flip this bit of NTProofStr
-	FlipBlobBit  int  // >=0: flip this bit of the client blob (after NTProofStr)
-	LMOnly       bool // valid LMv2 response, garbage NT response
-	NTLMv1       bool // 24-byte NTLMv1-style responses (computed with DES-free garbage)
+	FlipProofBit int    // >=0: flip this bit of NTProofStr
+	FlipBlobBit  int    // >=0: flip this bit of the client blob (after NTProofStr)
+	LMOnly       bool   // valid LMv2 response, garbage NT response
+	NTLMv1       bool   // 24-byte NTLMv1-style responses (computed with DES-free garbage)
 	NameInMsg    string // if set, the user name placed in the message (proof still for User)
 }
 
